@@ -31,6 +31,10 @@ type Obligation struct {
 	Status    Status   `json:"status"`
 	Reason    string   `json:"reason,omitempty"`
 	Path      []string `json:"path,omitempty"` // entry point -> call chain -> offending statement
+	// Aliases: the same site keyed by the reference function(s) its code came from, when the function holding it absorbed a
+	// function that is gone or is itself a helper extracted since the reference; a known finding recorded under one of these
+	// keys is the same finding (its code moved), not a new one.
+	Aliases []string `json:"aliases,omitempty"`
 }
 
 // Report collects the obligations of one property run.
@@ -81,6 +85,20 @@ func (r *Report) Check(ok bool, rule, construct, pos, okReason, badReason string
 		r.OK(rule, construct, pos, okReason)
 	} else {
 		r.Bad(rule, construct, pos, badReason)
+	}
+}
+
+// Alias adds alternative constructs to the latest obligation of (rule, construct).
+func (r *Report) Alias(rule, construct string, aliases ...string) {
+	for i := len(r.Obs) - 1; i >= 0; i-- {
+		if r.Obs[i].Rule == rule && r.Obs[i].Construct == construct {
+			for _, a := range aliases {
+				if a != construct {
+					r.Obs[i].Aliases = append(r.Obs[i].Aliases, a)
+				}
+			}
+			return
+		}
 	}
 }
 
@@ -139,6 +157,14 @@ func (ff *FindingsFile) Open(o Obligation) *Finding {
 		f := &ff.Findings[i]
 		if f.Status == "open" && f.Property == o.Property && f.Rule == o.Rule && f.Construct == o.Construct {
 			return f
+		}
+	}
+	for i := range ff.Findings {
+		f := &ff.Findings[i]
+		for _, a := range o.Aliases {
+			if f.Status == "open" && f.Property == o.Property && f.Rule == o.Rule && f.Construct == a {
+				return f
+			}
 		}
 	}
 	return nil
